@@ -30,9 +30,12 @@ RULE = ("(a) one design per operand width pair (wa, wb) <= 4 (quick) / 6 (thorou
         "bits, exhaustive values; (b) seeded random API-built designs (max width 8; every fifth up to 33 bits "
         "without *; registers with non-zero reset values, memories with initial contents, ROMs) x initial state x "
         "input sequence x merge_io_vectors x update_working_block: a case = (design, config), non-trivial when at "
-        "least half of the Outputs toggled or the design has state; plus 6 directed designs in both tiers: 2-3 "
+        "least half of the Outputs toggled or the design has state; plus 10 directed designs in both tiers: 2-3 "
         "memories and a ROM (pairwise different contents via memory_value_map) read through ONE address wire object "
-        "(Input / intermediate wire / Register) that is also address and data of write ports; "
+        "(Input / intermediate wire / Register) that is also address and data of write ports; registers with reset "
+        "None / explicit 0 / non-zero side by side; ROMs with pad_with_zeros and partial list / sparse-dict romdata "
+        "read at every address (a third of the random designs also draw such ROMs); each design is additionally "
+        "run with default_value in {1, all-ones of the smallest register}; "
         "every cycle compares Outputs of original / "
         "synthesized / Sem / Coq model and, wire by wire, value(w) = sum_i bit(w_i) 2^i on the real block")
 IMPORTS_GATES = 'From PyRTL Require Import Pass.BasicGates.'
@@ -471,10 +474,11 @@ def orig_memories(block):
     return list(seen.values())
 
 
-def run_original(d, regmap, memmap, inputs):
+def run_original(d, regmap, memmap, inputs, default_value=0):
     block = d.block
     sim = pyrtl.Simulation(tracer=pyrtl.SimulationTrace(block=block), register_value_map=dict(regmap),
-                           memory_value_map={m: dict(c) for m, c in memmap.items()}, block=block)
+                           memory_value_map={m: dict(c) for m, c in memmap.items()}, block=block,
+                           default_value=default_value)
     trace = []
     allw = sorted(block.wirevector_set, key=lambda w: w.name)
     full = []
@@ -497,7 +501,7 @@ def synth_bit_wire(post, w, i, merge):
     return post.wirevector_by_name.get(name)
 
 
-def run_post(d, post, merge, regmap, memmap, inputs, mem_by_id_workaround=False, bits_of=None):
+def run_post(d, post, merge, regmap, memmap, inputs, mem_by_id_workaround=False, bits_of=None, default_value=0):
     """the same testbench on the synthesized block"""
     rmap = {}
     for r, v in regmap.items():
@@ -513,13 +517,13 @@ def run_post(d, post, merge, regmap, memmap, inputs, mem_by_id_workaround=False,
         post.mem_map = {v: v for v in mmap}
         try:
             sim = pyrtl.Simulation(tracer=pyrtl.SimulationTrace(block=post), register_value_map=rmap,
-                                   memory_value_map=mmap, block=post)
+                                   memory_value_map=mmap, block=post, default_value=default_value)
         finally:
             post.mem_map = saved
     else:
         mmap = {m: dict(c) for m, c in memmap.items()}     # keyed by the ORIGINAL MemBlock
         sim = pyrtl.Simulation(tracer=pyrtl.SimulationTrace(block=post), register_value_map=rmap,
-                               memory_value_map=mmap, block=post)
+                               memory_value_map=mmap, block=post, default_value=default_value)
     trace = []
     for stp in inputs:
         sim.step(step_inputs(post, d.inputs, stp, merge))
@@ -591,7 +595,35 @@ def check_maps(ctx, d, post, merge, rep):
                                               and v in post.wirevector_set for v in vs)):
                 bad('synthesize:reg_map-values', 'reg_map[%s] is not a list of %d one-bit registers' % (r.name, len(r)))
                 ok = False
+    # per-bit reset values: bit i of reset_value, None stays None (an explicit reset_value=0 is NOT None)
+    if ok:
+        for r in regs:
+            want = [None if r.reset_value is None else (r.reset_value >> i) & 1 for i in range(len(r))]
+            got = [v.reset_value for v in post.reg_map[r]]
+            if got != want:
+                bad('synthesize:reset-value-bits',
+                    'reg_map[%s] (reset_value=%r) has per-bit reset values %r, expected %r' % (r.name, r.reset_value, got, want))
+                ok = False
     mems = orig_memories(block)
+    # a ROM of the synthesized block must read like the original at EVERY address (incl. pad_with_zeros)
+    for m in mems:
+        pm = post.mem_map.get(m)
+        if isinstance(m, pyrtl.RomBlock) and pm is not None:
+            def table(rom):
+                out = []
+                for a in range(1 << rom.addrwidth):
+                    try:
+                        out.append(rom._get_read_data(a))
+                    except Exception as e:
+                        out.append('raises %s' % type(e).__name__)
+                return out
+            if not isinstance(pm, pyrtl.RomBlock) or table(pm) != table(m) or \
+                    getattr(pm, 'pad_with_zeros', None) != getattr(m, 'pad_with_zeros', None):
+                bad('synthesize:rom-copy', 'ROM %s of the synthesized block does not read like the original '
+                    '(pad_with_zeros %r -> %r; contents %r -> %r)' % (
+                        m.name, getattr(m, 'pad_with_zeros', None), getattr(pm, 'pad_with_zeros', None),
+                        table(m), table(pm) if isinstance(pm, pyrtl.RomBlock) else type(pm).__name__))
+                ok = False
     if {id(k) for k in post.mem_map} != {id(m) for m in mems}:
         names_ok = sorted(k.name for k in post.mem_map) == sorted(m.name for m in mems)
         bad('synthesize:mem_map-not-keyed-by-original',
@@ -641,7 +673,64 @@ def py_shape_ok(post, merge):
     return True, None
 
 
-N_DIRECTED = 6
+N_DIRECTED = 10      # 0-5 shared address wire; 6-7 reset None / 0 / non-zero; 8-9 partial ROMs with pad_with_zeros
+
+
+def build_directed_regs(ctx, k):
+    """registers with reset_value None, explicit 0 and non-zero side by side (widths 1..5)"""
+    rng = ctx.sub_rng('directed-regs', k)
+    pyrtl.reset_working_block()
+    d = gen_designs.Design(pyrtl.working_block())
+    a = pyrtl.Input(3, 'a')
+    d.inputs = [a]
+    specs = [(1, None), (1, 0), (3, 0), (3, None), (4, 0b1010), (5, 0), (2, 3)]
+    if k % 2:
+        rng.shuffle(specs)
+    prev = a
+    for j, (bw, rv) in enumerate(specs):
+        r = pyrtl.Register(bw, 'q%d' % j, reset_value=rv)
+        r.next <<= (prev + a)[:bw] if len(prev) >= bw else (prev.zero_extended(bw) ^ a.zero_extended(max(bw, 3))[:bw])
+        d.regs.append(r)
+        o = pyrtl.Output(bw, 'oq%d' % j)
+        o <<= r
+        d.outputs.append(o)
+        prev = r
+    d.ops = ['+', 'trunc', '^']
+    inputs = [{'a': rng.randrange(8)} for _ in range(6 if ctx.tier == 'quick' else 12)]
+    regmap = {d.regs[-1]: 1} if k % 2 else {}
+    return d, regmap, {}, inputs
+
+
+def build_directed_roms(ctx, k):
+    """ROMs with pad_with_zeros=True and PARTIAL romdata (short list, sparse dict) next to a fully populated
+    one; the stimulus walks every address, covered or not"""
+    rng = ctx.sub_rng('directed-roms', k)
+    pyrtl.reset_working_block()
+    d = gen_designs.Design(pyrtl.working_block())
+    a = pyrtl.Input(3, 'a')
+    d.inputs = [a]
+    r_list = pyrtl.RomBlock(bitwidth=4, addrwidth=3, romdata=[9, 3, 14][:2 + k % 2], name='prom_list',
+                            max_read_ports=None, asynchronous=True, pad_with_zeros=True)
+    r_dict = pyrtl.RomBlock(bitwidth=5, addrwidth=3, romdata={1: 17, 6: 5} if k % 2 else {0: 30, 7: 1, 4: 11},
+                            name='prom_dict', max_read_ports=None, asynchronous=True, pad_with_zeros=True)
+    r_full = pyrtl.RomBlock(bitwidth=3, addrwidth=3, romdata=[(x * 5 + 2) % 8 for x in range(8)], name='prom_full',
+                            max_read_ports=None, asynchronous=True)
+    d.roms = [r_list, r_dict, r_full]
+    acc = pyrtl.Register(5, 'acc', reset_value=0)
+    d.regs.append(acc)
+    vals = [pyrtl.as_wires(m[a]) for m in d.roms]
+    acc.next <<= (acc + vals[1])[:5]
+    for j, v in enumerate(vals + [acc]):
+        o = pyrtl.Output(len(v), 'orom%d' % j)
+        o <<= v
+        d.outputs.append(o)
+    d.ops = ['romrd'] * 3 + ['+']
+    order = list(range(8))
+    rng.shuffle(order)
+    inputs = [{'a': x} for x in order]      # every address, covered or not
+    return d, {}, {}, inputs
+
+
 
 
 def build_directed(ctx, k):
@@ -650,6 +739,10 @@ def build_directed(ctx, k):
     an Input directly (k even) or an intermediate wire / a Register (k odd) --, that same wire also
     the address of one write port and the DATA of another, every memory initialised through
     memory_value_map keyed by the original MemBlock."""
+    if k in (6, 7):
+        return build_directed_regs(ctx, k)
+    if k in (8, 9):
+        return build_directed_roms(ctx, k)
     rng = ctx.sub_rng('directed', k)
     pyrtl.reset_working_block()
     d = gen_designs.Design(pyrtl.working_block())
@@ -720,6 +813,8 @@ def build_case(ctx, i):
                                     ops_subset=['&', '|', '^', '~', 'nand', '+', '-', '<', '>', '==', '!=', '<=',
                                                 '>=', 'mux', 'concat', 'slice', 'index', 'const', 'trunc', 'zext',
                                                 'sext', 'memrd', 'romrd', 'select'])
+    elif i % 3 == 1:
+        d = gen_designs.make_design(rng, wide_prob=0.0, max_width=8, sparse_rom_prob=0.8)
     else:
         d = gen_designs.make_design(rng, wide_prob=0.0, max_width=8)
     ncycles = rng.randint(3, 8 if ctx.tier == 'quick' else 14)
@@ -734,7 +829,7 @@ def part_b(ctx, only=None):
     model_exprs, model_cases = [], []
     for i in (only if only is not None else [-(k + 1) for k in range(N_DIRECTED)] + list(range(n))):
         d, regmap, memmap, inputs = build_case(ctx, i)
-        ctx.count('design_kind', 'directed-shared-address' if i < 0 else 'random')
+        ctx.count('design_kind', 'random' if i >= 0 else ('directed-shared-address', 'directed-reset-values', 'directed-partial-roms')[0 if -i - 1 < 6 else (1 if -i - 1 < 8 else 2)])
         block = d.block
         outnames = [o.name for o in d.outputs]
         base_rep = {'part': 'b', 'seed': ctx.seed, 'design': i, 'tier': ctx.tier,
@@ -832,6 +927,8 @@ def part_b(ctx, only=None):
                                              for bm in bits]
             if t_post != t_orig:
                 classify_mismatch(ctx, d, block, merge, regmap, memmap, inputs, t_orig, t_post, outnames, rep)
+            elif merge != uwb:
+                default_value_runs(ctx, d, post, merge, regmap, memmap, inputs, outnames, rep)
             elif len(bits) == len(full_orig):
                 # the invariant value(w) = sum_i bit(w_i) 2^i on EVERY wire of the original design, every cycle
                 bad = None
@@ -901,6 +998,47 @@ def part_b(ctx, only=None):
                                        c['i'], c['merge'], c['badnet']), c['rep'])
             if ok != c['py']:
                 ctx.model_mismatch('Coq shapeb and its Python mirror disagree on design %d' % c['i'], c['rep'])
+
+
+def default_value_runs(ctx, d, post, merge, regmap, memmap, inputs, outnames, rep):
+    """Simulation(default_value=dv) for dv in {1, all-ones of the smallest register}: registers WITHOUT a reset
+    value get an explicit initial value on both sides (default_value is not a reset value), so what is left is
+    exactly: a register with an explicit reset_value (0 included) must not fall back to default_value after
+    synthesis, and memories read the same default word."""
+    dvs = [1]
+    if d.regs:
+        dvs.append(mask(min(len(r) for r in d.regs)))
+    if d.mems:
+        lim = mask(min(m.bitwidth for m in d.mems))
+        dvs = [x for x in dvs if x <= lim]
+    for dv in sorted(set(dvs)):
+        rm = dict(regmap)
+        for r in d.regs:
+            if r not in rm and r.reset_value is None:
+                rm[r] = dv & mask(len(r))
+        try:
+            t_o, _ = run_original(d, rm, memmap, inputs, default_value=dv)
+        except Exception:
+            ctx.count('default_value_runs', 'original rejects default_value=%d' % dv)
+            continue
+        ctx.count('default_value_runs', 'dv=%d' % dv if dv == 1 else 'dv=all-ones-of-smallest-register')
+        rep2 = dict(rep, default_value=dv, regmap={r.name: v for r, v in rm.items()})
+        try:
+            try:
+                t_p = run_post(d, post, merge, rm, memmap, inputs, default_value=dv)
+            except KeyError:
+                t_p = run_post(d, post, merge, rm, memmap, inputs, mem_by_id_workaround=True, default_value=dv)
+        except Exception as e:
+            ctx.spec_violation('synthesize:testbench-raises', 'testbench with default_value=%d raised %s on the '
+                               'synthesized block but not on the original: %s' % (dv, type(e).__name__, e), rep2)
+            continue
+        if t_p != t_o:
+            diff = first_diff(t_o, t_p, outnames)
+            zero_regs = [r.name for r in d.regs if r.reset_value == 0 and r not in rm]
+            ctx.spec_violation('synthesize:explicit-reset-falls-back-to-default' if zero_regs else
+                               'synthesize:default-value-trace-mismatch',
+                               'with Simulation(default_value=%d) the synthesized block differs from the original (%s); '
+                               'registers with an explicit reset_value of 0: %s' % (dv, diff, zero_regs), rep2)
 
 
 def classify_mismatch(ctx, d, block, merge, regmap, memmap, inputs, t_orig, t_post, outnames, rep):
